@@ -74,6 +74,11 @@ def run(chk, tier):
     class NodePolicy(semtables.LogicPolicy):
         max_paths = 6000
 
+        def inline(self, path, body):
+            # private helpers of the translator (e.g. a table moved into its own function) are part of the translation
+            return semtables.LogicPolicy.inline(self, path, body) or (path.startswith("rscel_to_sql::") and str(body.d.get("vis", "")).startswith("Restricted")
+                                                                      and not path.endswith(">::into_sql_builder") and not path.endswith("::to_sql"))
+
         def __init__(self, root):
             super().__init__()
             self.root = root
@@ -249,7 +254,7 @@ def run(chk, tier):
     mp = variant_names("MemberPrime")
     CASTS = {"int": "integer", "uint": "bigint", "float": "double precision", "double": "double precision", "string": "text", "bool": "boolean",
              "bytes": "bytea", "timestamp": "timestamp", "duration": "interval"}
-    ARGS = r"\[\*rev\(\[\*map\(AstNode::node\(AstNode::node\((?:\*n\.1|Index::index\(n\.1, 0\))\)\.Call\.0\)\.0\)\]\.Ok\.0\)\]"
+    ARGS = r"\[\*rev\(\[\*map\(AstNode::node\(AstNode::node\((?:\*n\.1|Index::index\(n\.1, 0\)|n\.1\.\[c0\])\)\.Call\.0\)\.0\)\]\.Ok\.0\)\]"
     seen_cast = {}
     seen_m = set()
     for st, rr in rows:
@@ -323,6 +328,8 @@ def run(chk, tier):
             order = []
             for k_, a_ in enumerate(args):
                 fm = re.search(r"s\.0\.0\.(\d+)", a_)
+                if not fm and not re.search(r"\bsql\(|\bs\b", a_):
+                    continue          # a piece of fixed text chosen by the builder itself (e.g. `->` or `->>`), not an operand
                 fname = fields[int(fm.group(1))] if fm and int(fm.group(1)) < len(fields) else "?"
                 order.append(fname)
                 n_slots += 1
